@@ -46,7 +46,7 @@ impl Reg {
     }
 }
 
-pub trait Elem: Clone + Send + 'static {
+pub trait Elem: Clone + Send + std::fmt::Debug + 'static {
     const KIND: i64;
     const TRACKED: bool;
     /// for element types counted as a whole (zero-sized with destructor): instances alive right now
@@ -89,6 +89,21 @@ impl Elem for u64 {
 
 #[derive(Clone, Copy)]
 pub struct Zst;
+impl std::fmt::Debug for Zst {
+    fn fmt(&self, f: &mut std::fmt::Formatter<'_>) -> std::fmt::Result {
+        std::fmt::Debug::fmt(&0u64, f)
+    }
+}
+impl std::fmt::Debug for ZDrop {
+    fn fmt(&self, f: &mut std::fmt::Formatter<'_>) -> std::fmt::Result {
+        std::fmt::Debug::fmt(&0u64, f)
+    }
+}
+impl std::fmt::Debug for Droppy {
+    fn fmt(&self, f: &mut std::fmt::Formatter<'_>) -> std::fmt::Result {
+        std::fmt::Debug::fmt(&self.read(), f)
+    }
+}
 impl Elem for Zst {
     const KIND: i64 = 2;
     const TRACKED: bool = false;
@@ -648,6 +663,29 @@ fn apply<T: Elem>(st: &mut State<T>, step: &Step, counts: &mut Vec<&'static str>
             slot.model[idx] = id;
             Ok(format!("Write slot={} idx={} id={}", s, idx, id))
         }
+        "Show" => {
+            // formatted output: what a Vec of the same elements prints under the same format
+            // request (plain, alternate, hexadecimal with width, padded) is what the CVec prints
+            let s = sl(step.arg(0));
+            let Some(slot) = st.slots[s].as_ref() else { return Ok("Show noop".into()) };
+            let spec = step.arg(1).rem_euclid(5);
+            let want: Vec<u64> = slot.model.iter().map(|id| T::key(*id)).collect();
+            let (got, exp) = untracked(|| match spec {
+                0 => (format!("{:?}", slot.v), format!("{:?}", want)),
+                1 => (format!("{:#?}", slot.v), format!("{:#?}", want)),
+                2 => (format!("{:02x?}", slot.v), format!("{:02x?}", want)),
+                3 => (format!("{:#06X?}", slot.v), format!("{:#06X?}", want)),
+                _ => (format!("{:>5?}", slot.v), format!("{:>5?}", want)),
+            });
+            if got != exp {
+                let cut = |s: &str| s.chars().take(80).collect::<String>().replace('\n', "\\n");
+                return Err(Violation::new("vec.debug_output", "fmt", format!("format request #{} on a vector of {} element(s) printed `{}` where a Vec of the same elements prints `{}`", spec, want.len(), cut(&got), cut(&exp))));
+            }
+            if spec != 0 && !want.is_empty() {
+                counts.push("probe.show_flags_nonempty");
+            }
+            Ok(format!("Show slot={} spec={}", s, spec))
+        }
         "Drop" => {
             let s = sl(step.arg(0));
             let Some(slot) = st.slots[s].take() else { return Ok("Drop noop".into()) };
@@ -767,7 +805,7 @@ fn exec_t<T: Elem>(plan: &Plan, ctx: &mut RunCtx) -> VResult {
     simcore::check_no_leak("vec")
 }
 
-const OPS: [&str; 10] = ["FromVec", "Push", "Pop", "Insert", "Remove", "Reserve", "Clone", "Write", "Drop", "CloneFrom"];
+const OPS: [&str; 11] = ["FromVec", "Push", "Pop", "Insert", "Remove", "Reserve", "Clone", "Write", "Drop", "CloneFrom", "Show"];
 
 impl Engine for VecEngine {
     fn name(&self) -> &'static str {
@@ -783,7 +821,7 @@ impl Engine for VecEngine {
         p.set("elem", rng.range(0, 4));
         p.set("policy", rng.range(0, 3));
         let max_steps = if rng.chance(1, 2) { rng.range(3, 10) } else { rng.range(10, if thorough { 60 } else { 40 }) };
-        let mut w: Vec<u32> = vec![6, 16, 8, 10, 10, 4, 3, 6, 4, 3];
+        let mut w: Vec<u32> = vec![6, 16, 8, 10, 10, 4, 3, 6, 4, 3, 3];
         for i in 1..w.len() {
             if rng.chance(1, 6) {
                 w[i] = 0;
@@ -820,6 +858,7 @@ impl Engine for VecEngine {
                 "Clone" | "CloneFrom" => p.push(t, op, &[s0, rng.below(pool as u64) as i64, if rng.chance(1, 3) { rng.range(1, 4) } else { 0 }]),
                 "Write" => p.push(t, op, &[s0, rng.range(0, 30), party]),
                 "Drop" => p.push(t, op, &[s0, party]),
+                "Show" => p.push(t, op, &[s0, rng.range(0, 4)]),
                 _ => p.push(t, op, &[s0]),
             }
         }
